@@ -63,6 +63,12 @@ class Val:
         return f"<{self.ty}:{self.t}>"
 
 
+class OneShotVal(Val):
+    """the value a generator function returns to its caller: iterable once (engine.consume)"""
+    __slots__ = ()
+    _one_shot = True
+
+
 class _TInt(Ty):
     name = "int"
 
